@@ -28,11 +28,11 @@ type walletCase struct {
 	Testnet bool   `json:"testnet"`
 	Ltc     bool   `json:"ltc"`
 	AType   string `json:"atype"`
-	Seed    string `json:"seed"`  // hex of the `seed=` config value
-	File    string `json:"file"`  // hex of the .secret file / stdin
-	Stdin   bool   `json:"stdin"` // password through -stdin instead of .secret
-	Flags   int    `json:"flags"` // bit mask: option i goes on the command line instead of wallet.cfg
-	Twice   bool   `json:"twice"` // run -l a second time and compare
+	Seed    string `json:"seed"`             // hex of the `seed=` config value
+	File    string `json:"file"`             // hex of the .secret file / stdin
+	Stdin   bool   `json:"stdin"`            // password through -stdin instead of .secret
+	Flags   int    `json:"flags"`            // bit mask: option i goes on the command line instead of wallet.cfg
+	Twice   bool   `json:"twice"`            // run -l a second time and compare
 	Ask     int    `json:"ask,omitempty"`    // != 0: no seed file, File is TYPED at the prompts (see typed.go)
 	Term    string `json:"term,omitempty"`   // hex of the line terminator typed after the password (default 0a)
 	Second  string `json:"second,omitempty"` // hex: typed at the re-enter prompt instead of the password (mismatch)
@@ -123,7 +123,10 @@ func runWallet(dir string, w *walletCase, extra ...string) walRun {
 }
 
 // ---------------------------------------------------------------- reference wallet (spec)
-type refKey struct{ priv []byte; wif, p2kh, listed, label string }
+type refKey struct {
+	priv                     []byte
+	wif, p2kh, listed, label string
+}
 type refWal struct {
 	mnemonic, rootX, leafX string
 	keys                   []refKey
@@ -331,6 +334,37 @@ func refWallet(w *walletCase, scryptOut []byte) (res refWal, ok bool) {
 	return res, true
 }
 
+// refusalClass maps what a refusing wallet run printed to the model's refusal classes (Oracle/C14.lean `werr`)
+func refusalClass(rn walRun) string {
+	e := rn.stderr + "\n" + rn.stdout
+	has := func(t string) bool { return strings.Contains(e, t) }
+	switch {
+	case has("Unsupported wallet type"), has("are no longer supported"):
+		return "waltype"
+	case has("ERROR: hdpath"):
+		return "hdpath"
+	case has("Incorrect value for BIP39 words count"):
+		return "bip39count"
+	case has("Error reading seed password"):
+		return "emptyseed"
+	case has("Cannot use scrypt function in BIP39 mnemonic mode"):
+		return "scryptmnemonic"
+	case has("scrypt.Key failed"):
+		return "scrypt"
+	case has("entropy length must be"):
+		return "bip39-entropylen"
+	case has("invalid mnenomic"):
+		return "bip39-invalid"
+	case has("checksum incorrect"):
+		return "bip39-checksum"
+	case has("not found in reverse map"):
+		return "bip39-notfound"
+	case has("panic:"), has("goroutine "):
+		return "hd-panic"
+	}
+	return "other:" + strings.TrimSpace(rn.stderr)
+}
+
 // ---------------------------------------------------------------- the case
 var reWord = regexp.MustCompile(`\b(\d+): ([a-z]+)`)
 
@@ -417,14 +451,31 @@ func caseWallet(o *vlib.Oracle, c *rec, cs Case) {
 		c.TieFail("wallet-oracle", "oracle refused the request", cs)
 		return
 	}
-	if rep[0] == "err" {
-		c.Hit("wallet-refused-" + rep[1])
-		if rep[1] == "hd-outside" {
+	// "hd-outside": a key on the path is 0 mod n (about 2^-128 per step; gocoin continues with stale coordinates). The
+	// model has no key list then, but the real wallet has been run: it is judged by the reference below all the same.
+	haveModel := true
+	if rep[0] == "err" && rep[1] == "hd-outside" {
+		c.Hit("wallet-refused-hd-outside")
+		c.Hit("outside-model")
+		haveModel = false
+		if !realOK {
+			if refOK {
+				c.PropFail("wallet-refuses-valid", "wallet -l fails on a valid configuration: "+strings.TrimSpace(lst.stderr), cs)
+			}
 			return
 		}
+	} else if rep[0] == "err" {
+		c.Hit("wallet-refused-" + rep[1])
 		if realOK {
 			c.TieFail("wallet-accept", "wallet lists keys but the model refuses: "+rep[1], cs)
+		} else if rc := refusalClass(lst); rc != rep[1] && !(w.Ask != 0 && rc == "emptyseed") {
+			// both refuse, but for different reasons: that is no agreement (e.g. the wallet dies on something the
+			// model accepts while the model objects to something the wallet never looked at). A typed session that
+			// was refused at the prompts (typedPhase compared it) ends in "Error reading seed password" whatever the
+			// configuration's own defect is.
+			c.TieFail("wallet-refusal-reason", "the wallet refuses with ["+rc+"] ("+strings.TrimSpace(lst.stderr)+"), the model with ["+rep[1]+"]", cs)
 		} else {
+			c.Hit("wallet-refusal-reason-agrees")
 			c.TieOK()
 		}
 		if refOK {
@@ -443,20 +494,23 @@ func caseWallet(o *vlib.Oracle, c *rec, cs Case) {
 	// decode the oracle reply
 	type mkey struct{ priv, wif, p2kh, listed, listLabel, label, lookup string }
 	opt := func(s string) string { return string(unhx(s)) }
-	mMn, mRoot, mLeaf := opt(rep[1]), opt(rep[2]), opt(rep[3])
-	nx, _ := strconv.Atoi(rep[4])
+	var mMn, mRoot, mLeaf string
 	var mx []string
-	p := 5
-	for i := 0; i < nx; i++ {
-		mx = append(mx, opt(rep[p]))
-		p++
-	}
-	nk, _ := strconv.Atoi(rep[p])
-	p++
 	var mk []mkey
-	for i := 0; i < nk; i++ {
-		mk = append(mk, mkey{rep[p], opt(rep[p+1]), opt(rep[p+2]), opt(rep[p+3]), opt(rep[p+4]), opt(rep[p+5]), rep[p+6]})
-		p += 7
+	if haveModel {
+		mMn, mRoot, mLeaf = opt(rep[1]), opt(rep[2]), opt(rep[3])
+		nx, _ := strconv.Atoi(rep[4])
+		p := 5
+		for i := 0; i < nx; i++ {
+			mx = append(mx, opt(rep[p]))
+			p++
+		}
+		nk, _ := strconv.Atoi(rep[p])
+		p++
+		for i := 0; i < nk; i++ {
+			mk = append(mk, mkey{rep[p], opt(rep[p+1]), opt(rep[p+2]), opt(rep[p+3]), opt(rep[p+4]), opt(rep[p+5]), rep[p+6]})
+			p += 7
+		}
 	}
 	// 1. wallet.txt, exactly
 	var exp strings.Builder
@@ -468,14 +522,14 @@ func caseWallet(o *vlib.Oracle, c *rec, cs Case) {
 		fmt.Fprintln(&exp, k.listed, k.listLabel)
 	}
 	tieOK := true
-	if string(wtxt) != exp.String() {
+	if haveModel && string(wtxt) != exp.String() {
 		tieOK = false
 		c.TieFail("wallet-list", "wallet.txt differs from the model's key list", cs)
 	}
 	// stdout of -l carries the same lines in the same order
 	pos := 0
 	for _, l := range strings.Split(exp.String(), "\n")[1:] {
-		if l == "" {
+		if l == "" || !haveModel {
 			continue
 		}
 		j := strings.Index(lst.stdout[pos:], l+"\n")
@@ -495,7 +549,8 @@ func caseWallet(o *vlib.Oracle, c *rec, cs Case) {
 			dl = append(dl, f)
 		}
 	}
-	if len(dl) != len(mk) {
+	if !haveModel {
+	} else if len(dl) != len(mk) {
 		tieOK = false
 		c.TieFail("wallet-dump", fmt.Sprintf("wallet -dump * prints %d keys, model %d", len(dl), len(mk)), cs)
 	} else {
@@ -512,7 +567,7 @@ func caseWallet(o *vlib.Oracle, c *rec, cs Case) {
 	if w.Type == 4 {
 		xp := runWallet(dir, w, "-xprv")
 		xRoot, xLeaf = lineAfter(xp.stdout, "Root:"), lineAfter(xp.stdout, "Leaf:")
-		if xRoot != mRoot || xLeaf != mLeaf {
+		if haveModel && (xRoot != mRoot || xLeaf != mLeaf) {
 			tieOK = false
 			c.TieFail("wallet-xprv", "wallet -xprv differs from the model", cs)
 		}
@@ -523,13 +578,13 @@ func caseWallet(o *vlib.Oracle, c *rec, cs Case) {
 				ws = append(ws, m[2])
 			}
 			words = strings.Join(ws, " ")
-			if words != mMn {
+			if haveModel && words != mMn {
 				tieOK = false
 				c.TieFail("wallet-words", "wallet -words differs from the model: "+words+" vs "+mMn, cs)
 			}
 		}
 	}
-	if tieOK {
+	if tieOK && haveModel {
 		c.TieOK()
 	}
 	// ---------------------------------------------------------------- the property on the real output
@@ -622,7 +677,7 @@ func caseWallet(o *vlib.Oracle, c *rec, cs Case) {
 		if got := lineAfter(one.stdout, "Private encoded:"); got != dl[i][0] {
 			c.PropFail("address-is-signing-key", "wallet -dump "+addr+" does not return the key listed with that address: "+got, cs)
 		}
-		if mk[i].lookup != strconv.Itoa(i) {
+		if haveModel && mk[i].lookup != strconv.Itoa(i) {
 			c.Hit("model-lookup-other-index")
 		}
 	}
